@@ -352,6 +352,42 @@ def ped_fit(r, payload):
         r.outcome((tag, len(calls)))
 
 
+def ped_large_alleles(r, payload):
+    """real PedigreeCallingMCMC.fit on a diploid trio with 140 known haplotypes: allele numbers >= 128 must survive the start state, the working state
+    and the trace (a narrow integer type wraps them), and the well-supported true genotypes must be the posterior modes"""
+    import mchap.pedigree.classes as pc
+
+    rows = list(itertools.product(range(2), repeat=8))[:140]
+    haps = np.array(rows, np.int8)
+    truth = [(3, 130), (7, 135), (130, 135)]
+    e = 0.01
+    n = 3
+    reads = np.full((n, 2, 8, 2), np.nan)
+    counts = np.zeros((n, 2), np.int64)
+    for i, g in enumerate(truth):
+        for k, a in enumerate(g):
+            for j in range(8):
+                reads[i, k, j] = [1 - e, e] if rows[a][j] == 0 else [e, 1 - e]
+            counts[i, k] = 12
+    for stype in ("Gibbs", "Metropolis-Hastings"):
+        model = pc.PedigreeCallingMCMC(sample_ploidy=np.array([2, 2, 2]), sample_inbreeding=np.zeros(3), sample_parents=np.array([[-1, -1], [-1, -1], [0, 1]]),
+                                       gamete_tau=np.ones((3, 2), np.int64), gamete_lambda=np.zeros((3, 2)), gamete_error=np.full((3, 2), 0.01), haplotypes=haps,
+                                       frequencies=None, steps=40 if stype == "Gibbs" else 100, annealing=0, chains=1, random_seed=7, step_type=stype)
+        trace = model.fit(sample_reads=reads, sample_read_counts=counts)
+        g = np.asarray(trace.genotypes)
+        r.evaluations += 1
+        r.nontrivial += 1
+        r.traces += 1
+        tag = "ped-large-alleles|%s" % stype
+        if g.min() < 0 or g.max() >= len(haps):
+            r.violation(tag + "|range", "the trace holds allele numbers in [%d, %d] for %d haplotypes" % (g.min(), g.max(), len(haps)), payload)
+            continue
+        last = [tuple(sorted(int(x) for x in g[0, -1, i])) for i in range(n)]
+        if stype == "Gibbs" and last != [tuple(sorted(t)) for t in truth]:  # (an MH chain may legitimately still be on its way)
+            r.violation(tag + "|mode", "after %d steps on unambiguous reads the genotypes are %r, the reads spell %r" % (g.shape[1], last, truth), payload)
+        r.outcome((tag, tuple(last)))
+
+
 # ----------------------------------------------------------------------------------------------- calling
 def call_fit(r, payload):
     """CallingMCMC.fit -> mcmc_sampler"""
